@@ -363,6 +363,32 @@ def known_findings(prop):
     return [f for f in data.get("findings", []) if f.get("property", prop) == prop]
 
 
+def run_fixed_replays(rep):
+    """Regression replays of REPAIRED defects: known_findings/<prop>.json may carry a list `fixed_replays` of
+    {id, commit, program, expected_stdout, expected_rc (0 | 1), [args]}; each program is run on the current tree and any deviation
+    from what the property demands is a violation (a `fixed` entry suppresses nothing: the defect is reported again if it returns)."""
+    p = os.path.join(VERIF, "known_findings", rep.prop + ".json")
+    if not os.path.exists(p):
+        return
+    entries = json.load(open(p)).get("fixed_replays", [])
+    if not entries:
+        return
+    impl = build_impl("plain")
+    n_ok = 0
+    for f in entries:
+        rc, o, e = run_cb(impl, f["program"], timeout=20, args=tuple(f.get("args", ())))
+        want_rc = f.get("expected_rc", 0)
+        ok = (o == f["expected_stdout"]) and ((rc == 0) == (want_rc == 0)) and rc in (0, 1)
+        if ok:
+            n_ok += 1
+        else:
+            rep.violation("regress", {"id": f["id"], "commit": f.get("commit"), "program": f["program"], "expected_stdout": f["expected_stdout"],
+                                      "expected_rc": want_rc, "stdout": o, "rc": rc, "stderr": e[-600:]},
+                          "a repaired defect is back (%s, repaired by %s): main prints %r exit %d, demanded %r exit %d" % (
+                              f["id"], f.get("commit"), o[:120], rc, f["expected_stdout"][:120], want_rc))
+    rep.coverage["fixed_replays"] = {"entries": len(entries), "as_demanded": n_ok}
+
+
 class Report:
     def __init__(self, prop, tier, seed):
         self.prop, self.tier, self.seed = prop, tier, seed
